@@ -186,6 +186,32 @@ pub fn spec_child(x: u64, k: u64) -> u64 {
     }
 }
 
+/// Parent one level up of a canonical cell of resolution ≥ 0 (equivalence: `oracle_parent_equiv`).
+pub fn spec_parent1(x: u64) -> u64 {
+    let p = ctz64(x & M);
+    if p == 57 {
+        0
+    } else if p == 56 {
+        ((x >> 58) / 5) << 58 | (1u64 << 57)
+    } else if p == 55 {
+        (x >> 58) << 58 | (1u64 << 56)
+    } else {
+        (x & !(7u64 << p)) | (1u64 << (p + 2))
+    }
+}
+
+/// Contract model of `cell_to_parent(x, None)` on canonical cells of resolution ≥ 0 — the only way
+/// `compact` calls it on valid input. Proved equal to the real function by `oracle_parent_equiv`.
+pub fn parent_model(index: u64, parent_resolution: Option<i32>) -> Result<u64, String> {
+    match parent_resolution {
+        None if spec_valid(index) && res_stub(index) >= 0 => Ok(spec_parent1(index)),
+        _ => {
+            assert!(false, "parent_model used outside its contract");
+            Err(String::new())
+        }
+    }
+}
+
 /// Stubs for `<[u64]>::sort_unstable_by_key` (generic, as Kani requires).
 pub fn sort_by_key_noop<T, K: Ord, F: FnMut(&T) -> K>(_v: &mut [T], _f: F) {}
 
@@ -247,13 +273,14 @@ pub fn sort_small<T: Ord>(v: &mut [T]) {
 }
 
 /// Stub for std's internal `core::slice::sort::unstable::sort` (the common back end of
-/// sort_unstable, sort_unstable_by and sort_unstable_by_key): bounded insertion sort (≤ 6 elements).
+/// sort_unstable, sort_unstable_by and sort_unstable_by_key): bounded insertion sort (≤ 8 elements, asserted).
 pub fn sort_inner_small<T, F>(v: &mut [T], is_less: &mut F)
 where
     F: FnMut(&T, &T) -> bool,
 {
-    const MAXN: usize = 6;
+    const MAXN: usize = 8;
     let n = v.len();
+    assert!(n <= MAXN, "sort stub bound exceeded");
     let mut i = 1;
     while i < MAXN {
         if i >= n {
@@ -277,4 +304,31 @@ pub fn sort_inner_noop<T, F>(_v: &mut [T], _is_less: &mut F)
 where
     F: FnMut(&T, &T) -> bool,
 {
+}
+
+/// Same, bounded to 4 elements (asserted) — for the harnesses whose vector length is symbolic.
+pub fn sort_inner_small4<T, F>(v: &mut [T], is_less: &mut F)
+where
+    F: FnMut(&T, &T) -> bool,
+{
+    const MAXN: usize = 4;
+    let n = v.len();
+    assert!(n <= MAXN, "sort stub bound exceeded");
+    let mut i = 1;
+    while i < MAXN {
+        if i >= n {
+            break;
+        }
+        let mut j = i;
+        let mut k = 0;
+        while k < MAXN {
+            if !(j > 0 && is_less(&v[j], &v[j - 1])) {
+                break;
+            }
+            v.swap(j - 1, j);
+            j -= 1;
+            k += 1;
+        }
+        i += 1;
+    }
 }
